@@ -73,7 +73,9 @@ def calls_for(kind, reduced=False):
     elif kind in ("bytes", "uuid4", "datetime", "date"):
         good = {"bytes": [b"", b"ab"],
                 "uuid4": [_uuid.UUID("5a1f2e0c-9d3b-4c7a-8f21-0123456789ab"), _uuid.UUID("5a1f2e0c-9d3b-1c7a-8f21-0123456789ab"),
-                          _uuid.UUID(int=0)],
+                          _uuid.UUID(int=0),
+                          # version nibble 4 but not an RFC 4122 variant: .version is None, so not a v4 UUID
+                          _uuid.UUID("5a1f2e0c-9d3b-4c7a-0f21-0123456789ab")],
                 "datetime": [_dt.datetime(2020, 1, 2, 3, 4), _dt.datetime(2020, 1, 2, tzinfo=_dt.timezone.utc)],
                 "date": [_dt.date(2020, 1, 2), _dt.datetime(2020, 1, 2, 3, 4)]}[kind]
         add("__call__", one(good + W + [_dt.date(2020, 1, 2), "5a1f2e0c-9d3b-4c7a-8f21-0123456789ab"]))
